@@ -320,7 +320,7 @@ def dlStep (cfg : DynList.Cfg) (hs : List Nat) (s : DynList.St) (sel scr : Bool)
   | ["draw", w, h] =>
     match w.toNat?, h.toNat? with
     | some w, some h =>
-      let (wst, mc) : W × String := match DynList.draw Gen.ListFacts.dynCursorGuard cfg hs s w h with
+      let (wst, mc) : W × String := match DynList.draw DynList.genFacts cfg hs s w h with
         | .ok (s', cs) => (W.dl cfg hs s' false false, s!"{dlState s'} ch={dlChildren cs}")
         | .error _ => (W.dead, "panic")
       if impl = "panic" then (.dead, s!"{mc}\tpanic\tFAIL Dynamic.Draw panicked")
